@@ -79,3 +79,25 @@ func prepare(text string, files map[string][]byte) (workflow.ExecutableWorkflow,
 	}
 	return ex.Prepare(wf, files)
 }
+
+// sharedPreparer parses the text once and returns a function that prepares that same parsed workflow
+// object again and again with one executor (an API use the engine allows: Prepare takes the parsed
+// workflow, it does not own it).
+func sharedPreparer(text string, files map[string][]byte) (func() (workflow.ExecutableWorkflow, error), error) {
+	reg, cfg, err := newRegistry()
+	if err != nil {
+		return nil, err
+	}
+	wf, err := workflow.NewYAMLConverter(reg).FromYAML([]byte(text))
+	if err != nil {
+		return nil, err
+	}
+	ex, err := workflow.NewExecutor(quietLogger, cfg, reg, builtinfunctions.GetFunctions())
+	if err != nil {
+		return nil, err
+	}
+	if files == nil {
+		files = map[string][]byte{}
+	}
+	return func() (workflow.ExecutableWorkflow, error) { return ex.Prepare(wf, files) }, nil
+}
